@@ -133,6 +133,30 @@ def main():
                 chk.inconclusive_because("oracle saw %d of %d logged tuples: %s" % (
                     r["counters"].get("tuples", 0), hst.get("tuples", 0), cmdline))
 
+    # thread invariance: the Voronoi construction calls the predicates from all worker threads at once; every thread
+    # evaluates its own near-degenerate tuples alone and concurrently (harness/c17_threads.cpp), and the same harness runs
+    # under ThreadSanitizer (shared mutable state inside a predicate is a race whether or not it flipped a sign this time)
+    try:
+        exe_thr = common.build_harness("c17_threads", "hooks", link_libs=False)
+        exe_thr_tsan = common.build_harness("c17_threads", "tsan", link_libs=False)
+    except common.BuildError as e:
+        chk.inconclusive_because(str(e)); chk.finish()
+    thr, _ = hcheck.run_shards(chk, exe_thr, ["--tuples", str(20000 if quick else 400000), "--threads", "8"], 3 if quick else 12, timeout=1200, max_workers=2)
+    import tsan_classify
+    rd = chk.rundir()
+    tenv = {"TSAN_OPTIONS": "halt_on_error=0:report_signal_unsafe=0:log_path=%s/tsan.log:exitcode=0" % rd}
+    tthr, _ = hcheck.run_shards(chk, exe_thr_tsan, ["--tuples", str(1500 if quick else 20000), "--threads", "4"], 2 if quick else 6, timeout=1800, env=tenv, max_workers=2)
+    reports = tsan_classify.classify_dir(rd)
+    hstats["threads_evaluations_compared"] = thr.get("threads_evaluations_compared", 0)
+    hstats["threads_exact_zero_results"] = thr.get("threads_exact_zero_results", 0)
+    hstats["tsan_evaluations"] = tthr.get("threads_evaluations_compared", 0)
+    hstats["tsan_reports"] = len(reports)
+    for rep in reports:
+        if not rep["benign"]:
+            chk.violation("tsan/" + rep["key"], rep["summary"], {"report": rep["text"][:4000]})
+    chk.require_nonzero(threads_evaluations=hstats["threads_evaluations_compared"], threads_exact_zero=hstats["threads_exact_zero_results"],
+                        tsan_evaluations=hstats["tsan_evaluations"])
+
     cov = chk.coverage
     cov["evaluations"] = stats.get("evaluations", 0)
     cov["distinct_nontrivial"] = len(hashes)
@@ -148,6 +172,8 @@ def main():
     for k in sorted(samples):
         chk.add_sample(samples[k], maxn=12)
     chk.assumptions += [
+        "thread invariance is checked as agreement between a sequential and a concurrent evaluation of the same tuples (8 threads, every "
+        "test repeated 3 times in a row) plus a ThreadSanitizer pass; the sequential results themselves are what the offline oracle decides",
         "coordinates are doubles in [1,2) (exponent field 0x3FF), the range NewVoronoiGrid rescales generator positions into; "
         "behaviour outside that range (e.g. a coordinate equal to 2.0) is not part of this check",
         "sign convention: orient3d == sign det[a 1;b 1;c 1;d 1], insphere == sign det[p |p|^2 1] (rows a..e); verified against "
